@@ -211,6 +211,14 @@ def full_traversal_loop(ctx, cfg, a, body, owners, cl, owner_local, finisher_bb)
     return None
 
 
+def loc_is_self(a, c, argv):
+    """The forgotten value is the by-value receiver `self` (local 1) of the method."""
+    try:
+        return argv in (("V", "arg", 1), ("V", "cell", (("local", 1), ()))) or argv == a.read_cell(State(c.mem, c.facts), ("local", 1), (), a.local_ty(1))
+    except Exception:
+        return False
+
+
 def check_finishers(ctx, cfg):
     rule = "C03.F"
     db = ctx.db(cfg)
@@ -281,6 +289,21 @@ def check_finishers(ctx, cfg):
                             okp = okp and st_ == PROVED
                     if okp and n_p:
                         evidence = "on each of the %d path(s) through this forget the iterator's claimed range is exactly partitioned into destroyed ranges and moved-out slots" % n_p
+            if evidence is None and is_forget and c.targs[0]["def"].split("::")[-1] == "GenericArrayIter" and loc_is_self(a, c, argv):
+                # the iterator claims nothing any more where it is forgotten: index == index_back under the invariant and the facts of the path
+                # (what left its claim was moved out or destroyed under the rules for those sites - C03.K, C04.Y, C06.S)
+                itx = c06.It(db)
+                ai = ctx.analysis_inl(cfg, b["key"], itx.inv_facts(True), tag="inv1")
+                fg = [x for x in ai.calls if x.fn == "core::mem::forget" and x.at == c.at]
+                if fg and not ai.unknown:
+                    st_ = State(fg[0].mem, fg[0].facts)
+                    i0v = ai.read_cell(st_, ("local", 1), (itx.i0,), {"k": "prim", "n": "usize"})
+                    i1v = ai.read_cell(st_, ("local", 1), (itx.i1,), {"k": "prim", "n": "usize"})
+                    # .. and how the claim got empty is the judged cursor loop (every iteration gives up exactly the slot it moves out, C06.S)
+                    nm_ = "fold" if b["key"] == c06.K["fold"] else ("rfold" if b["key"] == c06.K["rfold"] else None)
+                    if nm_ is not None and i0v[0] == "I" and i1v[0] == "I" and all(prove(("==", i1v[1] - i0v[1]), ai.poly_facts(x.facts)) for x in fg) \
+                            and c06.fold_by_cursor_loop(ai, itx, nm_)[0]:
+                        evidence = "the iterator claims nothing where it is forgotten (index == index_back under the invariant and the path's facts), emptied by a judged loop over its own cursors (C06.S)"
             if evidence is None and is_forget and c.targs[0]["def"].split("::")[-1] == "GenericArrayIter":
                 # `while let Some(v) = self.next() { .. }` (or next_back): the iterator's own primitive returns None exactly when its claimed range
                 # is empty (C06.S / C03.I), so past the None exit of a loop that cannot be left any other way nothing is left to release
